@@ -66,6 +66,7 @@ Definition m_exec_remote (s : mstate) (o : op) : mstate :=
   match o with
   | OPut i k v => fst (m_put s k v (opid_ts i))
   | ORemove i k => m_remove_remote s k (opid_ts i)
+  | OSnap _ => m_init
   | _ => s
   end.
 
